@@ -51,7 +51,12 @@ def _targets():
 
 
 TARGETS = _targets()
-BACKENDS = ("object-mp", "object-f64", "numpy", "awkward")
+BACKENDS = ("object-mp", "object-f64", "numpy", "awkward", "record")
+
+
+def _single(be):
+    """one vector per call: object vectors and single Awkward records"""
+    return be.startswith("object") or be == "record"
 L_KW = {"z": ("z", "z"), "pz": ("z", "z"), "theta": ("theta", "theta"), "eta": ("eta", "eta")}
 T_KW = {"t": "t", "e": "t", "E": "t", "energy": "t", "tau": "tau", "m": "tau", "M": "tau", "mass": "tau"}
 
@@ -70,6 +75,8 @@ def cells(tier):
                 for be in BACKENDS:
                     for fl in "gm":
                         if tier == "quick" and be in ("numpy", "awkward") and (zlib.crc32(f"{sa}{mname}{be}".encode()) % 2):
+                            continue
+                        if tier == "quick" and be == "record" and (zlib.crc32(f"{sa}{mname}{be}".encode()) % 4):
                             continue
                         out.append({"id": f"to|{d}{R.sysname(sa)}|{mname}|{be}|{fl}", "group": "to", "d": d, "sa": R.sysname(sa),
                                     "method": mname, "target": R.sysname(starget), "backend": be, "fa": fl})
@@ -140,6 +147,8 @@ def _make(be, sa, rows, mom, dt="f64"):
     if be == "numpy":
         return build.np_array(sa, rows, mom, dtype=DTYPES[dt])
     f = build.ak_flat(sa, rows, mom, dtype=DTYPES[dt])
+    if be == "record":
+        return [f[i] for i in range(len(rows))]
     return ak.unflatten(f, [len(rows) - 1, 0, 1]) if len(rows) > 1 else f
 
 
@@ -147,6 +156,8 @@ def _read(be, r):
     """-> (system, rows, is_momentum, dim) of a result on any backend"""
     if be.startswith("object"):
         return obs.system_of(r), [tuple(obs.stored(r))], isinstance(r, Momentum), obs.dim_of(r)
+    if be == "record" and lattice.classify(r) != "awkward-record":
+        raise TypeError(f"a single record came back as {lattice.classify(r)}")
     system, rows = lattice.read_vector_rows(r)
     return system, rows, isinstance(r, Momentum), obs.dim_of(r)
 
@@ -185,7 +196,7 @@ def check_case(cell, bundle, ctx):
                  variant=variant, backend=be)
 
     vs = _make(be, sa, rows, mom, dt)
-    groups = [(i, vs[i]) for i in range(len(rows))] if be.startswith("object") else [(None, vs)]
+    groups = [(i, vs[i]) for i in range(len(rows))] if _single(be) else [(None, vs)]
 
     for gi, v in groups:
         idx = [gi] if gi is not None else list(range(len(rows)))
@@ -198,7 +209,7 @@ def check_case(cell, bundle, ctx):
 
 
 def _kwvalue(be, mp_, val, n, as_array):
-    if be.startswith("object") or not as_array:
+    if _single(be) or not as_array:
         return mpf(val) if mp_ else val
     arr = numpy.full(n, val) + numpy.arange(n) * 0.125
     if be == "awkward":
@@ -207,7 +218,7 @@ def _kwvalue(be, mp_, val, n, as_array):
 
 
 def _kw_elem(val, i, n, as_array, be):
-    if be.startswith("object") or not as_array:
+    if _single(be) or not as_array:
         return val
     return float(val + i * 0.125)
 
